@@ -4,6 +4,7 @@ import (
 	"io"
 	"net"
 	"runtime"
+	"time"
 )
 
 // C33 — in-memory pipes behave like a reliable byte stream.
@@ -157,4 +158,70 @@ func vhC33Listener() {
 	vAssert("no-dial-after-close", err != nil)
 	_, err = ln.Accept()
 	vAssert("no-accept-after-close", err != nil)
+}
+
+// vhC33ReadTimeout: a Read that times out on an idle pipe (deadline in the
+// past, or a short one that expires while the Read waits) is not part of the
+// stream: afterwards the reader keeps receiving exactly what the writer
+// sends, also when it takes the chunks in pieces while further chunks are
+// written (the released chunk buffers go through the pool, which hands the
+// most recently released one out again).
+func vhC33ReadTimeout() {
+	pc := NewPipeConns()
+	w, r := pc.Conn1(), pc.Conn2()
+	if vBool("reverse") {
+		w, r = r, w
+	}
+	var want, got []byte
+	first := vSym("first", 2)
+	if len(first) > 0 {
+		n, err := w.Write(first)
+		vAssert("write-accepts-all", err == nil && n == len(first))
+		want = append(want, first...)
+		// a buffer of exactly the chunk's size ends the Read without the
+		// non-blocking look for a further chunk
+		buf := make([]byte, len(first)+2*vChoose("firstReadSlack", 2))
+		n, err = r.Read(buf)
+		vAssert("read-no-error-while-data-pending", err == nil && n == len(first))
+		got = append(got, buf[:n]...)
+	}
+	timeouts := 1 + vChoose("timeouts", 2)
+	for i := 0; i < timeouts; i++ {
+		if vBool("deadlineInThePast") {
+			r.SetReadDeadline(time.Now().Add(-time.Second))
+		} else {
+			r.SetReadDeadline(time.Now().Add(10 * time.Millisecond))
+		}
+		buf := make([]byte, 4)
+		n, err := r.Read(buf)
+		vAssert("idle-read-times-out", n == 0 && err == ErrTimeout)
+	}
+	r.SetReadDeadline(time.Time{})
+	K := vParam("writes", 3)
+	for i := 0; i < K; i++ {
+		p := vSym("w", vParam("writeLen", 3))
+		n, err := w.Write(p)
+		vAssert("write-accepts-all", err == nil && n == len(p))
+		want = append(want, p...)
+		if len(got) < len(want) && vBool("readNow") {
+			buf := make([]byte, 1+vChoose("bufsize", 2))
+			n, err := r.Read(buf)
+			vAssert("read-no-error-while-data-pending", err == nil && n > 0)
+			got = append(got, buf[:n]...)
+		}
+	}
+	w.Close()
+	for {
+		buf := make([]byte, 2)
+		n, err := r.Read(buf)
+		got = append(got, buf[:n]...)
+		if err != nil {
+			vAssert("eof-after-drain", err == io.EOF)
+			break
+		}
+		if len(got) > len(want)+8 {
+			break
+		}
+	}
+	vAssert("reader-gets-exactly-the-bytes-in-order", string(got) == string(want))
 }
